@@ -862,6 +862,28 @@ pub fn gen_dec(rng: &mut Rng, thorough: bool, out: &mut String) {
             }
         }
     }
+    // as many pairs as fit: one-byte keys below 0x80 with one-byte values (two bytes per pair)
+    for kind in [Kind::Secp, Kind::Ed] {
+        for n in [40usize, 70, 74, 75, 76, 77, 80, 90, 100, 110, 120] {
+            let mut pairs: Vec<(Vec<u8>, Vec<u8>)> = Vec::new();
+            for i in 0..n {
+                // keys 0x01.. (skipping nothing reserved: reserved keys are longer than one byte)
+                pairs.push((vec![(i + 1) as u8], vec![(i % 0x7f) as u8 + 1]));
+            }
+            let spec = Spec::new(1, pairs, IndKey::gen(rng, kind));
+            let b = spec.encode(false);
+            inputs.push(inp("v-many-pairs", "accept", b, kind));
+        }
+    }
+    // pairs of keys d and n-d (same x coordinate, opposite parity), decoded back to back
+    for r in 0..(if thorough { 8 } else { 3 }) {
+        let k = IndKey::gen(rng, Kind::Secp);
+        let neg = IndKey { kind: Kind::Secp, sk: secp_neg(&k.sk) };
+        for (i, key) in [k.clone(), neg.clone(), k, neg].into_iter().enumerate() {
+            let spec = Spec::new(r as u64 + 1, reserved_pairs(rng, 21), key);
+            inputs.push(inp("v-negated-key-pair", "accept", spec.encode(i % 2 == 0), Kind::Secp));
+        }
+    }
     // presence combinations of the six address/port keys
     for mask in 0..64 {
         let kind = if mask % 2 == 0 { Kind::Secp } else { Kind::Ed };
@@ -974,6 +996,42 @@ pub fn gen_stream(rng: &mut Rng, thorough: bool, out: &mut String) {
                 });
             }
         }
+    }
+    // an item whose signature was made over its content *and the bytes that follow it in the buffer*:
+    // invalid alone, and therefore invalid whatever follows
+    for r in 0..(if thorough { 12 } else { 4 }) {
+        let kind = if r % 2 == 0 { Kind::Secp } else { Kind::Ed };
+        let spec = rand_spec(rng, kind);
+        let content = spec.content();
+        let suffix: Vec<u8> = match r % 4 {
+            0 => vec![0x83, b'f', b'o', b'o', 0x83, b'b', b'a', b'r'],
+            1 => vec![0x00],
+            2 => vec![0xff; 40],
+            _ => Spec::new(3, vec![], IndKey::gen(rng, kind)).encode(false),
+        };
+        // the list header announces the content only, the signed bytes run on into the suffix
+        let mut msg = rlp_header(true, content.len());
+        msg.extend_from_slice(&content);
+        msg.extend_from_slice(&suffix);
+        let sig = spec.key.sign(&msg, false);
+        let item = spec.encode_with_sig(&rlp_bytes(&sig));
+        if item.len() > 300 {
+            continue;
+        }
+        let mut with = item.clone();
+        with.extend_from_slice(&suffix);
+        inputs.push(Input { tag: "s-t-sig-over-content-and-suffix-alone".into(), expect: "reject", buf: item.clone(), kind, item_len: item.len() });
+        inputs.push(Input { tag: "s-t-sig-over-content-and-suffix".into(), expect: "reject", buf: with, kind, item_len: item.len() });
+        // and over content || suffix with the header covering both
+        let mut msg2 = rlp_header(true, content.len() + suffix.len());
+        msg2.extend_from_slice(&content);
+        msg2.extend_from_slice(&suffix);
+        let sig2 = spec.key.sign(&msg2, false);
+        let item2 = spec.encode_with_sig(&rlp_bytes(&sig2));
+        let mut with2 = item2.clone();
+        with2.extend_from_slice(&suffix);
+        inputs.push(Input { tag: "s-t-sig-over-longer-list-alone".into(), expect: "reject", buf: item2.clone(), kind, item_len: item2.len() });
+        inputs.push(Input { tag: "s-t-sig-over-longer-list".into(), expect: "reject", buf: with2, kind, item_len: item2.len() });
     }
     for i in inputs.iter() {
         emit_dec(i, &REAL_SCHEMES, false, out);
@@ -1228,6 +1286,15 @@ pub fn gen_txt(rng: &mut Rng, thorough: bool, out: &mut String) {
             ("x-space-after-prefix".into(), "reject", format!("enr: {body}")),
             ("x-nonascii".into(), "reject", format!("{good}é")),
             ("x-empty".into(), "reject", String::new()),
+            // other encodings of the very same valid record
+            ("x-hex-0x".into(), "reject", format!("0x{}", hex::encode(&rec))),
+            ("x-hex".into(), "reject", hex::encode(&rec)),
+            ("x-hex-upper".into(), "reject", hex::encode(&rec).to_uppercase()),
+            ("x-enr-hex-0x".into(), "reject", format!("enr:0x{}", hex::encode(&rec))),
+            ("x-enr-hex".into(), "reject", format!("enr:{}", hex::encode(&rec))),
+            ("x-0x-b64".into(), "reject", format!("0x{body}")),
+            ("x-b64-of-text".into(), "reject", format!("enr:{}", b64(good.as_bytes()))),
+            ("x-double-b64".into(), "reject", format!("enr:{}", b64(body.as_bytes()))),
             ("x-enr-only".into(), "reject", "enr:".into()),
             ("x-short".into(), "reject", body[..3].to_string()),
         ];
